@@ -347,6 +347,8 @@ def _get_centering_constraint_from_matrix(matrix: numpy.ndarray) -> numpy.ndarra
     Args:
         matrix: The 2-d array design matrix.
     """
+    # Rows for null inputs are all-null, and must not contribute to the mean.
+    matrix = matrix[~numpy.isnan(matrix).any(axis=1)]
     return matrix.mean(axis=0).reshape((1, matrix.shape[1]))
 
 
